@@ -190,6 +190,16 @@ var xUnits = []xUnit{
 		Oracles: map[string]xOracle{"isNoDataError(err)": {"no_data", "bool"}, "err.(*net.OpError)": {"is_op_error", "bool"}, "err == io.EOF": {"is_eof", "bool"}},
 		Ignore: []string{`TLOG.Errorf("net.OpError: %v, error: %v", conn.RemoteAddr(), err)`, `TLOG.Debugf("connection closed by remote: %v, error: %v", conn.RemoteAddr(), err)`,
 			`TLOG.Errorf("read package error: %v", err)`, "c.close(conn)"}},
+	// C08 / C01 / C09: ServantProxy.TarsInvoke, the request packet and the effective timeout
+	{Name: "tr_TarsInvoke_req", Dir: "tars", Func: "ServantProxy.TarsInvoke", Recv: true, StrMaps: true,
+		From: "req := requestf.RequestPacket{", To: "req := requestf.RequestPacket{", Outs: []string{"req"},
+		Oracles: map[string]xOracle{"s.genRequestID()": {"gen_request_id", "Z"}, "tools.ByteToInt8(buf)": {"sbuffer", "list Z"}}},
+	{Name: "tr_TarsInvoke_timeout", Dir: "tars", Func: "ServantProxy.TarsInvoke", Recv: true,
+		Writer: &xWriter{Type: "list Z", Prims: map[string]xPrim{"context.WithTimeout": {"go_arm", []int{1}}}},
+		From: "timeout := time.Duration(s.timeout) * time.Millisecond", To: "if dl, ok := ctx.Deadline(); ok {", Outs: []string{"timeout", "req"},
+		Funcs:   map[string]xOracle{"current.GetClientTimeout": {"client_timeout", "bool * Z * bool"}},
+		Oracles: map[string]xOracle{"ctx.Deadline()": {"has_deadline", "bool"}, "time.Until(dl)": {"until_deadline", "Z"}},
+		Ignore:  []string{"var cancel context.CancelFunc", "defer cancel()"}},
 	{Name: "tr_cli_recv_chunk", Dir: "tars/transport", Func: "connection.recv", Deep: true, Fuel: true,
 		From: "currBuffer = append(currBuffer, buffer[:n]...)", To: "for {", Outs: []string{"currBuffer"}, After: []string{}, Fresh: []string{"currBuffer"},
 		Writer: &xWriter{Type: "list (list N)", Prims: map[string]xPrim{"c.client.protocol.Recv": {"go_deliver", []int{0}}}},
@@ -291,7 +301,7 @@ func newXLoader(root string) *xLoader {
 }
 
 func (l *xLoader) Import(path string) (*types.Package, error) {
-	if path == "encoding/binary" || path == "math" || path == "bytes" || path == "time" || path == "io" || path == "sync/atomic" || path == "sort" {
+	if path == "encoding/binary" || path == "math" || path == "bytes" || path == "time" || path == "io" || path == "sync/atomic" || path == "sort" || path == "context" {
 		return l.std.Import(path)
 	}
 	if l.mod != "" && strings.HasPrefix(path, l.mod+"/") {
@@ -802,7 +812,7 @@ func xlateUnit(root string, u *xUnit, units []xUnit, ld *xLoader, records map[st
 		}
 		ast.Inspect(fd.Body, func(n ast.Node) bool {
 			if id, ok := n.(*ast.Ident); ok && id.Pos() >= hi {
-				if o := x.info.Uses[id]; o != nil && set[o] && !handed[o] {
+				if o := x.info.Uses[id]; o != nil && set[o] && !handed[o] && x.translatable(o.Type()) { // (a variable outside the subset carries no value of the translation)
 					x.fail(id, "%s is set by the translated statements and used after them, but is not among the unit's outputs", id.Name)
 				}
 			}
@@ -859,7 +869,7 @@ func xRecordDecl(name string, nm *types.Named, x *xl) string {
 	st := nm.Underlying().(*types.Struct)
 	var fs []string
 	for _, f := range x.recFields(st) {
-		fs = append(fs, name+"_"+f.Name()+" : "+x.coqType(nil, f.Type()))
+		fs = append(fs, name+"_"+f.Name()+" : "+x.memberType(nil, f.Type()))
 	}
 	return fmt.Sprintf("(* struct %s *)\nRecord %s := { %s }.\n", nm.String(), name, strings.Join(fs, ";\n  "))
 }
